@@ -17,6 +17,7 @@ package main
 import (
 	"fmt"
 	"reflect"
+	"runtime"
 	"runtime/debug"
 	"time"
 
@@ -53,6 +54,7 @@ type worker struct {
 	rmCon       interface{} // connection a "remove.lock" point belongs to
 	rmNested    bool        // … reached inside that connection's critical section
 	snapRemoved map[interface{}]int // `removed` counters at the time of the current Flush* call's snapshot
+	gid         uint64              // goroutine id of the worker's goroutine
 }
 
 type controller struct {
@@ -102,12 +104,58 @@ func watchdog() time.Duration {
 	if timeouts > 10 {
 		return 200 * time.Millisecond
 	}
-	return 3 * time.Second
+	if timeouts >= 3 {
+		return 3 * time.Second
+	}
+	// generous for the first timeouts: on a heavily loaded machine a healthy goroutine has been seen to need
+	// more than 3 s to be scheduled; a tree that really blocks costs 3 × 30 s before the timeout shrinks
+	return 30 * time.Second
+}
+
+// zombies: some earlier case ended `blocked`, i.e. left a goroutine wedged inside the library.  Such a
+// goroutine may come back to life later (a mutated tree that spins and then reaches a hook) while another
+// case is running; from then on every hook call checks, by goroutine id, that it comes from the worker
+// the controller released, and parks any other caller for good.
+var zombies bool
+
+func goid() uint64 {
+	var buf [64]byte
+	n := runtime.Stack(buf[:], false)
+	// "goroutine 123 [running]:"
+	var id uint64
+	for _, ch := range buf[len("goroutine "):n] {
+		if ch < '0' || ch > '9' {
+			break
+		}
+		id = id*10 + uint64(ch-'0')
+	}
+	return id
+}
+
+// running returns the worker on whose behalf the calling goroutine executes (nil: none / a zombie).
+func running() *worker {
+	c := ctl
+	if c == nil || c.cur == nil {
+		return nil
+	}
+	w := c.cur
+	if zombies && goid() != w.gid {
+		return nil
+	}
+	return w
 }
 
 // yield is called (through the hooks) by the running worker.
 func yield(point string, lock interface{}) {
 	c := ctl
+	if zombies {
+		if w := running(); w == nil {
+			if c != nil && c.cur != nil {
+				select {} // a zombie of an earlier, blocked case: park it
+			}
+			return
+		}
+	}
 	if c == nil || c.cur == nil {
 		return
 	}
@@ -131,6 +179,7 @@ func (c *controller) spawn(w *worker, body func(w *worker)) {
 			}
 			c.reports <- report{w: w, point: "", pan: v, site: site}
 		}()
+		w.gid = goid()
 		if ok := <-w.resume; !ok {
 			return
 		}
@@ -166,6 +215,7 @@ func (c *controller) release(w *worker) bool {
 	case r = <-c.reports:
 	case <-time.After(watchdog()):
 		timeouts++
+		zombies = true
 		c.blocked = true
 		c.cur = nil
 		return false
